@@ -206,12 +206,6 @@ theorem readBool_trunc : R.Trunc readBool := by
 /-- both sides are the same cascade of matches: split one, rewrite the other -/
 macro "match_eq" : tactic => `(tactic| repeat (first | rfl | (split <;> try simp only [*])))
 
-/-- sequencing as a combinator -/
-def R.bind {α β : Type} (r : R α) (k : α → R β) : R β := fun bs =>
-  match r bs with
-  | .error e => .error e
-  | .ok (a, rest) => k a rest
-
 theorem R.Trunc.bind' {α β : Type} {r : R α} {k : α → R β} (hr : R.Trunc r) (hk : ∀ a, R.Trunc (k a)) :
     R.Trunc (R.bind r k) := R.Trunc.bind hr hk
 
@@ -348,7 +342,7 @@ def lift (s' : St) (r : CM Bits) : CM St :=
   | .error e => .error e
   | .ok b => .ok (s'.setBits b)
 
-@[simp] theorem lift_ok (s' : St) (b : Bits) : lift s' (.ok b) = .ok (s'.setBits b) := rfl
+@[simp] theorem fr_lift_ok (s' : St) (b : Bits) : lift s' (.ok b) = .ok (s'.setBits b) := rfl
 @[simp] theorem lift_error (s' : St) (e : Err) : lift s' (.error e) = .error e := rfl
 
 /-- What a successful run from bits `b0` to bits `b1` tells about runs of the same function on
@@ -780,7 +774,7 @@ def walkRest (P : Prims) (d : Desc) : St → CM St := fun s =>
       | .error e => .error e
       | .ok s => dispatch P d s
 
-theorem walk1_eq (P : Prims) (d : Desc) (s0 : St) :
+theorem fr_walk1_eq (P : Prims) (d : Desc) (s0 : St) :
     walk1 P d s0 = if skipTest d s0 then .ok (dnpStep s0) else walkRest P d (dnpStep s0) := by
   cases d <;> rw [walk1] <;> first | rfl | (intro e h; cases h)
 
@@ -812,7 +806,7 @@ theorem good_walkRest {Sh : Shape} {P : Prims} (hP : P.Good Sh) (d : Desc) (hd :
 
 theorem good_walk1_of {Sh : Shape} {P : Prims} (hP : P.Good Sh) (d : Desc) (hd : Good Sh (dispatch P d)) :
     Good Sh (walk1 P d) := by
-  refine Good.congr (walk1_eq P d) ?_
+  refine Good.congr (fr_walk1_eq P d) ?_
   refine Good.ite (c := fun s0 => skipTest d s0 = true) (fun _ _ => Iff.rfl) (Good.pure dnpStep_setBits) ?_
   exact Good.congr (G := kl (fun s => .ok (dnpStep s)) (walkRest P d)) (fun s => rfl)
     (Good.kl (Good.pure dnpStep_setBits) (good_walkRest hP d hd))
@@ -1163,7 +1157,7 @@ theorem good_write (upd : St → St) (hupd : ∀ (s : St) (b : Bits), upd (s.set
       have := congrArg St.bits (hupd s s.bits)
       simpa using this
     refine ⟨f.reverse, by simp only [List.reverseAux_eq, hb], fun b => ?_⟩
-    simp only [hupd, St.write, St.setBits_bits, List.reverseAux_eq, lift_ok]
+    simp only [hupd, St.write, St.setBits_bits, List.reverseAux_eq, fr_lift_ok]
     rfl
 
 theorem nextVal_setBits (s : St) (b : Bits) :
